@@ -23,7 +23,7 @@ def config(tier):
         'grace_s': 300,
         'floors': {'cases': 20, 'schedules': 1000, 'distinct_interleavings': 600,
                    'contended_schedules': 300, 'actors_finished': 2000,
-                   'stress_rounds': 4, 'exhaustive_scenarios': 4,
+                   'stress_rounds': 4, 'exhaustive_scenarios': 3,
                    'adaptive_runs': 20},
         'rule': 'case = scenario (first use of the trash dir, existing dir, '
                 '1/3/99/101 earlier same-named entries, orphan payload, stale '
@@ -298,7 +298,9 @@ def gen_case(rng, index, tier):
     case['actors'] = actors
     case['tdir'] = tdir
     case['name'] = name
-    case['bound'] = 2 if tier == 'quick' else 3
+    # thorough: every other enumeration keeps the bound at which the space is
+    # usually exhausted within max_enum; the others go one preemption deeper
+    case['bound'] = 2 if (tier == 'quick' or index % 2 == 0) else 3
     case['nrandom'] = 30 if tier == 'quick' else 150
     if scen in ('same-named-99', 'same-named-101'):
         # ~100 probes per actor: exhaustive enumeration is out of budget,
